@@ -24,6 +24,9 @@ package mcp
 //@ lemma [C20:roles_partition] forall n string :: !(n in TOOLS_READ && n in TOOLS_OPERATE) && !(n in TOOLS_READ && n in TOOLS_ADMIN) && !(n in TOOLS_OPERATE && n in TOOLS_ADMIN)
 //@ lemma [C20:rank_order] rankOf(RoleRead) < rankOf(RoleOperate) && rankOf(RoleOperate) < rankOf(RoleAdmin)
 
+// in this package the only json encoder under contract is the audit writer's: one Encode is one audit record
+// (overrides the ResponseWriter reading of Encode in /verif/specs/handlers.spec)
+//@ extern encoding/json.(*Encoder).Encode(enc, v) (err)
 //@   modifies audits
 //@   ensures audits == old(audits) + 1
 
